@@ -260,7 +260,9 @@ void VH_FN(std::vector<ix::Segment>& out) {
         s.run = [](long kk, uint64_t seed, bool, Result& res) {
             vh::Rng r(vh::mix(seed ^ 0x611, uint64_t(kk) * 16 + D * 2 + PER));
             const long L = (kk % 10 == 0) ? 0 : r.range(0, std::max<long>(2, exhaustiveMaxLevel(false)));   // level 0 regularly: with the periodic ordering every image wraps onto the root cell
-            const long H = L + 1;
+            // the builders take the level as an argument: the group's level is the leaf level of the index's configuration in
+            // a third of the cases and one or two levels above it otherwise (the lists of a level must not depend on the height)
+            const long H = L + 1 + long(r.below(3));
             const Cfg cfg = makeCfg(H); const Space sp(cfg);
             long cells = 1; for (int d = 0; d < D; ++d) cells *= (1L << L);
             Group g;
@@ -273,7 +275,7 @@ void VH_FN(std::vector<ix::Segment>& out) {
             else { const long start = long(r.below(uint64_t(cells))); for (long i = start; i < std::min(cells, start + 2 * target); i += 2) chosen.insert(i); }     // gaps inside the range
             g.idx.assign(chosen.begin(), chosen.end());
             const bool testSelf = r.coin(0.7), upper = r.coin(0.5);
-            res.desc = KN + " synthetic group of " + vh::str(g.idx.size()) + " cells at level " + vh::str(L) + " style " + vh::str(style) + " testSelfInclusion=" + vh::str(testSelf) + " upperExclusion=" + vh::str(upper);
+            res.desc = KN + " synthetic group of " + vh::str(g.idx.size()) + " cells at level " + vh::str(L) + " (tree height " + vh::str(H) + ") style " + vh::str(style) + " testSelfInclusion=" + vh::str(testSelf) + " upperExclusion=" + vh::str(upper);
             checkGroup(sp, L, g, testSelf, upper, res);
             res.sig = KN + ",grp," + vh::str(vh::mix(seed, kk)); res.nontrivial = g.idx.size() >= 2 && L >= 2;
         };
